@@ -423,3 +423,36 @@ Example ex_guard_blocks_restart :
   (exists st', advance false ex_prog st0 1 0 (fun _ => ORaise) = Some st' /\
                queue st' = [EvStartFlow 1 1 true; EvColangError; EvFlowFailed 1]).
 Proof. split; eexists; (split; [vm_compute; reflexivity|reflexivity]). Qed.
+
+(* ------------------------------------------------------------------------------------------ *)
+(* snapshot discipline of the matching phase *)
+
+Lemma match_phase_deferred_safe : forall fuel raises cands st errs,
+  Forall (cand_valid st) cands ->
+  forall u h, match_phase false fuel cands raises st errs <> MLookupError u h.
+Proof.
+  intros fuel raises. induction cands as [|[u h] cs IH]; intros st errs Hv u0 h0; simpl.
+  - destruct (abort_all fuel (rev errs) st); discriminate.
+  - inversion Hv as [|x l [i [hd [Hg Hn]]] Hrest]; subst. simpl in Hg, Hn. rewrite Hg, Hn.
+    destruct (raises u h).
+    + apply IH. eapply Forall_impl; [|exact Hrest].
+      intros c [i' [hd' [Hg' Hn']]]. exists i', hd'. split; assumption.
+    + apply IH. assumption.
+Qed.
+
+Lemma match_phase_immediate_refuted :
+  exists st cands raises, Forall (cand_valid st) cands /\
+    match_phase true 10 cands raises st [] = MLookupError 1 1.
+Proof.
+  exists ex_two_heads, [(1, 0); (1, 1); (2, 0)], (fun u h => Nat.eqb u 1 && Nat.eqb h 0). split.
+  - repeat (constructor; [unfold cand_valid; simpl; repeat eexists|]). constructor.
+  - vm_compute. reflexivity.
+Qed.
+
+(* with the deferred abort the same state is handled: the faulty instance is stopped, the bystander
+   instance 2 is untouched and ColangError is queued *)
+Example ex_match_phase_deferred :
+  exists st', match_phase false 10 [(1, 0); (1, 1); (2, 0)] (fun u h => Nat.eqb u 1 && Nat.eqb h 0) ex_two_heads [] = MOk st' /\
+    option_map i_status (get st' 1) = Some Stopped /\ get st' 2 = get ex_two_heads 2 /\
+    queue st' = [EvColangError; EvFlowFailed 1].
+Proof. eexists. split; [vm_compute; reflexivity|]. repeat split. Qed.
